@@ -13,7 +13,7 @@ for pid in sorted(P.get('property', {})):
         'evidence_file': '/verif/evidence/%s.json' % pid,
         'replay_cmd_template': './check %s --replay {path}' % pid,
         'engine': 'verus-contracts',
-        'level_claimed': {'category': c.get('level', 'proof'), 'text': c.get('level_text', ''), 'design_ref': c.get('design_ref', 'DESIGN.md section 7 (%s)' % pid)},
+        'level_claimed': {'category': c.get('level', 'proof'), 'text': c.get('level_text', ''), 'design_ref': c.get('design_ref', 'DESIGN.md section 6 (%s)' % pid)},
         'level_note': c.get('level_note', ''),
         'technique': c.get('technique', 'contract-based deductive verification (Verus) of the real functions, extracted mechanically on every run'),
     })
@@ -30,7 +30,7 @@ m = {
         'add_only': True,
     },
     'engines': [{'name': 'verus-contracts', 'path': '/verif/check', 'serves_properties': [c['property_id'] for c in checks],
-                 'kind_free_text': 'tools/extract.py assembles one Verus input from the current /repo/src (rules D1-D3,R1-R10,G1), splices the contracts of spec/*.toml, runs verus, maps each failed obligation to its labelled clause / function'}],
+                 'kind_free_text': 'tools/extract.py assembles one Verus input from the current /repo/src (rules D1-D3, R1-R14, G1-G4 of DESIGN.md section 3), splices the contracts of spec/*.toml, runs verus, maps each failed obligation to its labelled clause / function; after a rejection (or for a function Verus cannot decide) a paired bounded Kani harness looks for a concrete failing input and replays it on the real crate'}],
     'checks': checks,
     'not_applicable': na,
     'notes': P.get('notes', ''),
